@@ -204,9 +204,32 @@ class C04(Prop):
                     # TimeoutError is the right outcome, but only once the timeout has run: a skipped
                     # datagram must not end the wait (a matching reply could still arrive)
                     out.append(V("C04.skip-ended-wait", "the call consumed only non-matching datagrams and gave up after %.6f s of a %.3f s timeout" % ((res["t1"] - ex["t"]) / 1e9, run.sess_cfg[s]["timeout_ns"] / 1e9), exc="early-timeout"))
+                elif verdicts:
+                    # ... nor stop the call from taking what arrives afterwards: a matching reply that
+                    # reached the socket well before the deadline, behind skipped datagrams only, and
+                    # was never read by this call means the skip ended the wait in effect
+                    T = run.sess_cfg[s]["timeout_ns"]
+                    margin = 50_000_000 + 20 * run.plan.get("recv_cost_ns", 0)
+                    enq = _enq(run)
+                    for did, d in run.dgrams.items():
+                        if d["s"] != s or did not in enq or did in ex["rx"]:
+                            continue
+                        if not (ex["t"] <= enq[did] <= ex["t"] + T - margin):
+                            continue
+                        if oracle.classify(run.sess_cfg[s], pending, d["label"]) == MATCH:
+                            out.append(V("C04.skip-ended-wait", "after %d skipped datagram(s) the call never read the matching reply that arrived %.6f s after the request (timeout %.3f s) and raised TimeoutError" % (len(verdicts), (enq[did] - ex["t"]) / 1e9, T / 1e9), exc="match-left-unread"))
+                            break
             elif kind == oracle.SOCKERR:
                 pass
         return out
+
+
+def _enq(run):
+    """datagram id -> instant it reached the session's socket queue."""
+    m = getattr(run, "_enq_map", None)
+    if m is None:
+        m = run._enq_map = {ev[3]: ev[2] for ev in run.sim.hist if ev[0] == "enq"}
+    return m
 
 
 def _refresh(self, run, res):
